@@ -51,8 +51,10 @@ func asmfloat(x float64, bits int) string {
 // String is a string constant.
 type String string
 
-// Asm returns an assembly syntax representation of the string s.
-func (s String) Asm() string { return fmt.Sprintf("$%q", s) }
+// Asm returns an assembly syntax representation of the string s. The literal
+// is ASCII-only: the Go assembler rewrites the runes U+00B7 and U+2215 to '.'
+// and '/' in every token, string literals included, so they must be escaped.
+func (s String) Asm() string { return fmt.Sprintf("$%+q", s) }
 
 // Bytes returns the length of s.
 func (s String) Bytes() int { return len(s) }
